@@ -276,6 +276,24 @@ pub fn witness() {
         let dis: Vec<String> = p.disassemble_string().lines().take(12).map(|l| l.replace('\t', " ")).collect();
         println!("    disassembly: {}", dis.join(" | "));
     }
+    // trace indices vs Module::get_card (C15 / C16 numbering)
+    let m = main_only(vec![
+        CardBody::Repeat(Box::new(cao_lang::compiler::Repeat {
+            i: None,
+            n: Card::scalar_int(3),
+            body: CardBody::ScalarNil.into(),
+        }))
+        .into(),
+    ]);
+    if let Some(p) = show("N-C15-1 main=[Repeat(n = ScalarInt 3, body = ScalarNil)]", &m) {
+        let mut entries: Vec<(u32, &cao_lang::prelude::Trace)> = p.trace.iter().map(|(k, v)| (*k, v)).collect();
+        entries.sort_by_key(|x| x.0);
+        for (a, t) in entries {
+            if t.namespace.is_empty() {
+                println!("    trace[{}] = {} -> get_card: {:?}", a, t.index, m.get_card(&t.index).map(|c| c.name().to_string()));
+            }
+        }
+    }
     // > 255 upvalues
     let mut rng = Rng::new(1);
     let mut st = GenStats::default();
